@@ -3,6 +3,7 @@ package rules
 import (
 	"fmt"
 	"go/token"
+	"go/types"
 	"strings"
 
 	"golang.org/x/tools/go/ssa"
@@ -466,9 +467,26 @@ func c16(c *core.Ctx) {
 						}
 					}
 				}
-				if call := fmCall; call != nil {
-					format, _ := core.ConstString(call.Call.Args[0])
-					args, unp := core.VariadicArgs(call.Call.Args[1])
+				// "/" + service + "/" + name is the same string
+				var catArgs []ssa.Value
+				if fmCall == nil && fm != nil {
+					for _, o := range core.Origins(fm) {
+						parts := concatParts(core.ResolveFree(o))
+						if len(parts) == 4 {
+							s0, ok0 := core.ConstString(parts[0])
+							s2, ok2 := core.ConstString(parts[2])
+							if ok0 && ok2 && s0 == "/" && s2 == "/" {
+								catArgs = []ssa.Value{parts[1], parts[3]}
+							}
+						}
+					}
+				}
+				if call := fmCall; call != nil || catArgs != nil {
+					format, args, unp := "/%s/%s", catArgs, true
+					if call != nil {
+						format, _ = core.ConstString(call.Call.Args[0])
+						args, unp = core.VariadicArgs(call.Call.Args[1])
+					}
 					if format == "/%s/%s" && unp && len(args) == 2 {
 						_, f1, ok1 := core.FieldOf(core.Strip(args[1]))
 						svcOK := false
@@ -723,4 +741,14 @@ func methodParamOfRoot(fn *ssa.Function) *ssa.Parameter {
 		}
 	}
 	return nil
+}
+
+// concatParts flattens a string concatenation a + b + c … into its operands.
+func concatParts(v ssa.Value) []ssa.Value {
+	if b, ok := v.(*ssa.BinOp); ok && b.Op == token.ADD {
+		if bt, isB := b.Type().Underlying().(*types.Basic); isB && bt.Info()&types.IsString != 0 {
+			return append(concatParts(b.X), concatParts(b.Y)...)
+		}
+	}
+	return []ssa.Value{v}
 }
